@@ -76,6 +76,7 @@ type hostRunner struct {
 	log     []string
 	ctl     chan error
 	waiting int // number of options presented by the last element, 0 if none
+	ends    int // consecutive END results; after three, further next operations are skipped (both sides apply this rule)
 }
 
 func (h *hostRunner) takeLog() string {
@@ -295,11 +296,20 @@ func Run(c *sexp.S, out *Out) {
 				out.Put("NORUNNER")
 				continue
 			}
+			if r.ends >= 3 {
+				out.Put("SKIP")
+				continue
+			}
 			choice := a[1].Int()
 			if r.waiting > 0 {
 				choice %= r.waiting // keep the choice in range; when not waiting the argument is passed as it is
 			}
 			res := r.next(choice)
+			if res == "END" {
+				r.ends++
+			} else {
+				r.ends = 0
+			}
 			out.Put("%s%s", res, r.state())
 		case "snap":
 			r := runners[a[0].Int()]
@@ -331,6 +341,9 @@ func Run(c *sexp.S, out *Out) {
 				return "OK"
 			})
 			r.waiting = 0
+			if res == "OK" {
+				r.ends = 0
+			}
 			out.Put("RESTORE %s%s", res, r.state())
 		case "restorebad":
 			r := runners[a[0].Int()]
